@@ -1,102 +1,804 @@
+//! Correspondence harness: runs the real `purl` crate on case lines and prints canonical outcome
+//! lines (mode `run`), or evaluates the per-property oracles on the real crate (mode `oracle`).
+//! The OCaml driver `model/drv.ml` prints the same canonical lines from the extracted Coq model.
+//!
+//! Case language (one case per line, fields separated by one space, strings hex encoded, `-` = empty):
+//!   P <k> <s>                      parse; k = g (String) | s (SmallString) | t (PackageType)
+//!   S <k> <exp> <s>                parse a legal spelling; exp = ty|ns|name|ver|k=v;..|sub (expected tuple)
+//!   X <k> <err> <s>                parse a faulty spelling; err = expected error text
+//!   B <k> <type> <name0> <ops>     builder; k = g | b (Cow::Borrowed) | o (Cow::Owned) | s | t (type = index 0..6)
+//!   Q <ops>                        Qualifiers operation sequence
+//!   F <pairs>                      Qualifiers::try_from_iter
+//!   C <csops>                      Checksum operation sequence
+//!   c <text>                       Checksum::try_from(text)
+//!   T <s>                          PackageType::from_str
+//!   N <idx> <s>                    Purl::builder_with_combined_name
+//!   K <sub> ~ <sub>                comparison of two PURL-producing cases (P or B) of the same kind
+//!   H <fam> <P|B ...>              user-supplied shape family member `fam` (conv,ty,hook)
+//!   J <k> <json>                   serde: deserialize JSON text (feature serde)
+#![allow(clippy::all)]
 use std::borrow::Cow;
+use std::cell::RefCell;
+use std::collections::hash_map::DefaultHasher;
+use std::hash::{Hash, Hasher};
 use std::io::{BufRead, Write};
+use std::panic::{catch_unwind, AssertUnwindSafe};
 use std::str::FromStr;
-use purl::qualifiers::well_known::Checksum;
+
+use purl::qualifiers::well_known::{Checksum, RepositoryUrl};
 use purl::qualifiers::Entry;
 use purl::*;
-fn fld(f:PurlField)->&'static str{ match f {PurlField::PackageType=>"type",PurlField::Namespace=>"namespace",PurlField::Name=>"name",PurlField::Version=>"version",PurlField::Subpath=>"subpath"} }
-fn perr(e:&ParseError)->String{ match e { ParseError::UnsupportedUrlScheme=>"Scheme".into(), ParseError::MissingRequiredField(f)=>format!("Missing({})",fld(*f)), ParseError::InvalidPackageType=>"InvalidType".into(), ParseError::InvalidQualifier=>"InvalidQualifier".into(), ParseError::InvalidEscape=>"InvalidEscape".into() } }
-fn pkerr(e:&PackageError)->String{ match e { PackageError::MissingRequiredField(f)=>format!("PMissing({})",fld(*f)), PackageError::Parse(e)=>format!("Parse:{}",perr(e)), PackageError::UnsupportedType=>"UnsupportedType".into() } }
-fn h(s:&str)->String{ hex::encode(s.as_bytes()) }
-fn uh(s:&str)->String{ String::from_utf8(hex::decode(s).unwrap()).unwrap() }
-fn qs(q:&Qualifiers)->String{ q.iter().map(|(k,v)| format!("{}={}",h(k.as_str()),h(v))).collect::<Vec<_>>().join(";") }
-fn show<T:PurlShape>(p:&GenericPurl<T>)->String{
-  format!("O {}|{}|{}|{}|{}|{}|{}", h(&p.package_type().package_type()), h(p.namespace().unwrap_or("")), h(p.name()), h(p.version().unwrap_or("")), qs(p.qualifiers()), h(p.subpath().unwrap_or("")), h(&p.to_string())) }
-fn pairs(s:&str)->Vec<(String,String)>{ if s.is_empty(){vec![]} else { s.split(',').map(|kv|{ let (k,v)=kv.split_once('=').unwrap(); (uh(k),uh(v)) }).collect() } }
-const PTS:[PackageType;7]=[PackageType::Cargo,PackageType::Gem,PackageType::Golang,PackageType::Maven,PackageType::Npm,PackageType::NuGet,PackageType::PyPI];
-fn bgen<T:PurlShape<Error=ParseError>>(t:T,a:&[&str])->String{
-  let mut b=GenericPurlBuilder::new(t,uh(a[2])).with_namespace(uh(a[3])).with_version(uh(a[4])).with_subpath(uh(a[5]));
-  for (k,v) in pairs(a.get(6).copied().unwrap_or("")) { match b.with_qualifier(k,v){ Ok(x)=>b=x, Err(_)=>return "QE".into() } }
-  match b.build(){ Ok(p)=>show(&p), Err(e)=>format!("E {}",perr(&e)) } }
-fn cs_show(c:&Checksum)->String{ let mut v:Vec<(String,String)>=c.iter().map(|(k,v)|(k.to_string(),v.raw().to_string())).collect(); v.sort();
-  let ents=v.iter().map(|(k,v)|format!("{}={}",h(k),h(v))).collect::<Vec<_>>().join(";");
-  let c2=c.clone(); let r=std::panic::catch_unwind(move|| SmallString::try_from(c2));
-  format!("{}|{}", ents, match r { Err(_)=>"P".into(), Ok(Err(_))=>"E".into(), Ok(Ok(t))=>format!("T:{}",h(&t)) }) }
-fn run(line:&str)->String{
-  let a:Vec<&str>=line.split(' ').collect();
-  match a[0] {
-    "pg"=> match GenericPurl::<String>::from_str(&uh(a[1])){Ok(p)=>show(&p),Err(e)=>format!("E {}",perr(&e))},
-    "pt"=> match Purl::from_str(&uh(a[1])){Ok(p)=>show(&p),Err(e)=>format!("E {}",pkerr(&e))},
-    "bg"=> bgen::<String>(uh(a[1]),&a),
-    "bb"=> { let t=uh(a[1]); bgen::<Cow<str>>(Cow::Borrowed(&t),&a) },
-    "bt"=> { let mut b=Purl::builder(PTS[a[1].parse::<usize>().unwrap()],uh(a[2])).with_namespace(uh(a[3])).with_version(uh(a[4])).with_subpath(uh(a[5]));
-             for (k,v) in pairs(a.get(6).copied().unwrap_or("")) { match b.with_qualifier(k,v){ Ok(x)=>b=x, Err(_)=>return "QE".into() } }
-             match b.build(){ Ok(p)=>show(&p), Err(e)=>format!("E {}",pkerr(&e)) } },
-    "qo"=> { let mut q=Qualifiers::default(); let mut outs=vec![];
-             for o in a.get(1).copied().unwrap_or("").split(';').filter(|s|!s.is_empty()) { let f:Vec<&str>=o.split(':').collect();
-               outs.push(match f[0] {
-                 "i"=> match q.insert(uh(f[1]),uh(f[2])){Ok(_)=>"u".to_string(),Err(_)=>"e".into()},
-                 "r"=> match q.remove(uh(f[1])){Some(v)=>format!("v:{}",h(&v)),None=>"n".into()},
-                 "g"=> match q.get(uh(f[1])){Some(v)=>format!("v:{}",h(v)),None=>"n".into()},
-                 "c"=> {q.clear(); "u".into()},
-                 "t"=> {q.retain(|_,v| !v.is_empty()); "u".into()},
-                 "e"=> match q.entry(uh(f[1])){ Err(_)=>"e".into(), Ok(en)=>{ let v=en.or_insert(uh(f[2])); format!("v:{}",h(v)) } },
-                 _=>"?".into() }); }
-             format!("{}|{}", outs.join(";"), qs(&q)) },
-    "cs"=> { let mut c=Checksum::default();
-             for o in a.get(1).copied().unwrap_or("").split(';').filter(|s|!s.is_empty()) { let f:Vec<&str>=o.split(':').collect();
-               match f[0] { "i"=>c.insert(&uh(f[1]), hex::decode(f[2]).unwrap()), "w"=>c.insert_raw(&uh(f[1]), uh(f[2])), "r"=>c.remove(&uh(f[1])), _=>{} } }
-             cs_show(&c) },
-    "ct"=> { let t=uh(a.get(1).copied().unwrap_or("")); match Checksum::try_from(t.as_str()){ Err(_)=>"E".into(), Ok(c)=>cs_show(&c) } },
-    "pn"=> match PackageType::from_str(&uh(a.get(1).copied().unwrap_or(""))){ Ok(t)=>h(t.name()), Err(_)=>"none".into() },
-    "cn"=> { let t=PTS[a[1].parse::<usize>().unwrap()]; let b=Purl::builder_with_combined_name(t,uh(a.get(2).copied().unwrap_or("")));
-             let ns=b.parts.namespace.to_string(); let nm=b.parts.name.to_string();
-             format!("{}|{}|{}", h(&ns), h(&nm), match b.build(){ Ok(p)=>h(&p.combined_name()), Err(_)=>"berr".into() }) },
-    _=>"?".into() } }
 
-struct Rng(u64);
-impl Rng { fn next(&mut self)->u64{ self.0=self.0.wrapping_add(0x9E3779B97F4A7C15); let mut z=self.0; z=(z^(z>>30)).wrapping_mul(0xBF58476D1CE4E5B9); z=(z^(z>>27)).wrapping_mul(0x94D049BB133111EB); z^(z>>31)} fn below(&mut self,k:usize)->usize{(self.next()%(k as u64)) as usize} }
-const TOK:&[&str]=&["pkg:","/","@","?","#","&","=","a","B","%41","%2F","%2f","%80","\u{e9}",".","..","%2e","checksum",":",",","0a","%","+","%26"];
-fn gen_tok(k:usize, out:&mut dyn Write){ // every string of <= k tokens, each as pg and pt
-  fn rec(cur:&mut String, left:usize, out:&mut dyn Write){ let hx=hex::encode(cur.as_bytes()); writeln!(out,"pg {}",hx).unwrap(); writeln!(out,"pt {}",hx).unwrap();
-    if left==0 {return;} for t in TOK { let l=cur.len(); cur.push_str(t); rec(cur,left-1,out); cur.truncate(l);} }
-  let mut s=String::new(); rec(&mut s,k,out); }
-fn gen_spell(n:usize, seed:u64, out:&mut dyn Write){ let mut r=Rng(seed);
-  let comps=["a","B","n","x.y","1.0","\u{e9}","\u{1c5}","a b","a@b","a?b","a#b","a&b","a=b","a%b","a+b","\u{0}","-_.","A_b","\u{130}","\u{212a}"];
-  let types=["t","T","npm","NPM","pypi","PyPi","nuget","maven","golang","cargo","gem","a+b.c-9","swift"];
-  fn spell(r:&mut Rng,s:&str,raw_ok:&dyn Fn(u8)->bool)->String{ let mut o=String::new(); for &b in s.as_bytes(){ let c=r.below(4); if b<128 && raw_ok(b) && c<2 {o.push(b as char);} else if b>=128 && c==0 { /* raw utf8 handled per char below */ o.push_str(&format!("%{:02X}",b)); } else if c==2 {o.push_str(&format!("%{:02x}",b));} else {o.push_str(&format!("%{:02X}",b));} } o }
-  for i in 0..n { let ty=types[r.below(types.len())]; let mut s=String::from("pkg:"); for _ in 0..r.below(3){s.push('/');} s.push_str(ty); s.push('/');
-    let has_ver=r.below(2)==0; let has_q=r.below(2)==0; let has_sub=r.below(2)==0;
-    let okp=move |b:u8| !(b==b'/'||b==b'%'||(b==b'@'&&!has_ver)||(b==b'?'&&!has_q)||(b==b'#'&&!has_sub));
-    for _ in 0..r.below(3){ let c=comps[r.below(comps.len())]; s.push_str(&spell(&mut r,c,&okp)); s.push('/'); for _ in 0..r.below(2){s.push('/');} }
-    let c=comps[r.below(comps.len())]; s.push_str(&spell(&mut r,c,&okp));
-    if has_ver { s.push('@'); let c=comps[r.below(comps.len())]; let okv=move |b:u8| !(b==b'@'||b==b'%'||(b==b'?'&&!has_q)||(b==b'#'&&!has_sub)); s.push_str(&spell(&mut r,c,&okv)); }
-    if has_q { s.push('?'); let nq=1+r.below(3); for j in 0..nq { if j>0 {s.push('&');} let k=["k","K","l","a.b","checksum","Z-9_"][r.below(6)]; s.push_str(k); s.push('=');
-        if k=="checksum" { s.push_str(["a:00","B:0A,a:ff","sha1:00ff","x:"][r.below(4)]); } else if r.below(5)!=0 { let c=comps[r.below(comps.len())]; let okq=move |b:u8| !(b==b'&'||b==b'%'||b==b'?'||(b==b'#'&&!has_sub)); s.push_str(&spell(&mut r,c,&okq)); } } }
-    if has_sub { s.push('#'); for j in 0..1+r.below(3) { if j>0 {s.push('/');} let c=[".","..","","a","x y","\u{e9}","a?b","a@b"][r.below(8)]; if c=="."||c==".."||c=="" {s.push_str(c);} else { let oks=|b:u8| !(b==b'/'||b==b'%'||b==b'#'); s.push_str(&spell(&mut r,c,&oks)); } } }
-    let hx=hex::encode(s.as_bytes()); writeln!(out,"{} {}", if i%2==0 {"pg"} else {"pt"}, hx).unwrap(); } }
-fn gen_names(out:&mut dyn Write, all:bool){ // one-character names for nuget / pypi / cargo through the typed builder
-  for u in 0..=0x10FFFFu32 { if let Some(c)=char::from_u32(u) { let interesting = all || u<0x250 || c.to_lowercase().ne([c]) || c.is_uppercase();
-     if interesting { let h=hex::encode(c.to_string().as_bytes()); for t in [5,6,0] { writeln!(out,"bt {} {} {} {} {} ", t, h, "", "", "").unwrap(); } } } } }
-// ---- oracles: the property evaluated on the implementation alone ----
-fn oracle(prop:&str, line:&str)->String{ let a:Vec<&str>=line.split(' ').collect();
-  fn rt<T>(s:&str)->String where T:FromStr+PurlShape+Clone+PartialEq, <T as PurlShape>::Error: From<<T as FromStr>::Err> {
-    match GenericPurl::<T>::from_str(s){ Err(_)=>"ok rejected".into(), Ok(p)=>{ let c=p.to_string(); match GenericPurl::<T>::from_str(&c){ Err(_)=>format!("FAIL canonical string {:?} of {:?} is rejected",c,s),
-        Ok(q)=> if q!=p {format!("FAIL {:?} re-parses to a different PURL",c)} else if q.to_string()!=c {format!("FAIL {:?} formats differently the second time",c)} else {"ok".into()} } } } }
-  match (prop,a[0]) {
-    ("C01","pg")=>rt::<String>(&uh(a[1])), ("C01","pt")=>rt::<PackageType>(&uh(a[1])),
-    ("C07",c) if c=="pg"||c=="pt" => { let s=uh(a[1]); let (ns,sub)= if c=="pg" { match GenericPurl::<String>::from_str(&s){Ok(p)=>(p.namespace().map(String::from),p.subpath().map(String::from)),Err(_)=>return "ok rejected".into()} } else { match Purl::from_str(&s){Ok(p)=>(p.namespace().map(String::from),p.subpath().map(String::from)),Err(_)=>return "ok rejected".into()} };
-        if let Some(n)=ns { if n.split('/').any(|x| x.is_empty()) {return format!("FAIL namespace {:?} has an empty segment",n);} }
-        if let Some(n)=sub { if n.split('/').any(|x| x.is_empty()||x=="."||x=="..") {return format!("FAIL subpath {:?} has an empty or dot segment",n);} } "ok".into() },
-    ("C08","bt") => { let t=a[1].parse::<usize>().unwrap(); let name=uh(a[2]); let lower:String=name.chars().flat_map(|c|c.to_lowercase()).collect();
-        let expect = match t { 5=>lower, 6=>{ let mut o=String::new(); let mut ind=false; for c in name.chars(){ if "-_.".contains(c){ if !ind {o.push('-'); ind=true;} } else {ind=false; o.extend(c.to_lowercase());} } o }, _=>name.clone() };
-        match Purl::builder(PTS[t], name.clone()).with_namespace("ns").build(){ Ok(p)=> if p.name()==expect {"ok".into()} else {format!("FAIL {} name {:?} came out as {:?}, expected {:?}",PTS[t].name(),name,p.name(),expect)}, Err(_)=> if expect.is_empty() {"ok".into()} else {"FAIL build refused".into()} } },
-    _=>"ok n/a".into() } }
-fn main(){ let _=Entry::<&str>::or_insert::<&str>; std::panic::set_hook(Box::new(|_|{}));
-  let args:Vec<String>=std::env::args().collect(); let out=std::io::stdout(); let mut out=std::io::BufWriter::new(out.lock());
-  match args.get(1).map(|s|s.as_str()) {
-    Some("gen") => match args[2].as_str() { "tok"=>gen_tok(args[3].parse().unwrap(),&mut out), "spell"=>gen_spell(args[3].parse().unwrap(),args[4].parse().unwrap(),&mut out), "names"=>gen_names(&mut out,args.get(3).map(|s|s=="all").unwrap_or(false)), _=>panic!("gen?") },
-    Some("oracle") => { let prop=args[2].clone(); let stdin=std::io::stdin(); for line in stdin.lock().lines(){ let line=line.unwrap(); let (p2,l2)=(prop.clone(),line.clone());
-        let r=std::panic::catch_unwind(move|| oracle(&p2,&l2)); writeln!(out,"{}", r.unwrap_or_else(|_| "FAIL panic".into())).unwrap(); } },
-    _ => { let stdin=std::io::stdin(); for line in stdin.lock().lines(){ let line=line.unwrap(); let l2=line.clone();
-        let r=std::panic::catch_unwind(move|| run(&l2)); writeln!(out,"{}", r.unwrap_or_else(|_| "PANIC".into())).unwrap(); } } } }
+#[cfg(feature = "ss")]
+type Small = purl::SmallString;
+#[cfg(not(feature = "ss"))]
+type Small = String;
+
+mod oracle;
+mod shapes;
+
+// ------------------------------------------------------------------ printing helpers
+pub fn h(s: &str) -> String {
+    if s.is_empty() {
+        "-".into()
+    } else {
+        hex::encode(s.as_bytes())
+    }
+}
+pub fn hb(s: &[u8]) -> String {
+    if s.is_empty() {
+        "-".into()
+    } else {
+        hex::encode(s)
+    }
+}
+pub fn uhb(s: &str) -> Vec<u8> {
+    if s == "-" {
+        vec![]
+    } else {
+        hex::decode(s).expect("hex")
+    }
+}
+pub fn uh(s: &str) -> String {
+    String::from_utf8(uhb(s)).expect("case strings are UTF-8")
+}
+pub fn fld(f: PurlField) -> &'static str {
+    match f {
+        PurlField::PackageType => "type",
+        PurlField::Namespace => "namespace",
+        PurlField::Name => "name",
+        PurlField::Version => "version",
+        PurlField::Subpath => "subpath",
+    }
+}
+pub fn perr(e: &ParseError) -> String {
+    match e {
+        ParseError::UnsupportedUrlScheme => "Scheme".into(),
+        ParseError::MissingRequiredField(f) => format!("Missing({})", fld(*f)),
+        ParseError::InvalidPackageType => "InvalidType".into(),
+        ParseError::InvalidQualifier => "InvalidQualifier".into(),
+        ParseError::InvalidEscape => "InvalidEscape".into(),
+    }
+}
+#[cfg(feature = "pt")]
+pub fn pkerr(e: &PackageError) -> String {
+    match e {
+        PackageError::MissingRequiredField(f) => format!("PMissing({})", fld(*f)),
+        PackageError::Parse(e) => format!("Parse:{}", perr(e)),
+        PackageError::UnsupportedType => "UnsupportedType".into(),
+    }
+}
+pub fn qs(q: &Qualifiers) -> String {
+    if q.is_empty() {
+        return "-".into();
+    }
+    q.iter().map(|(k, v)| format!("{}={}", h(k.as_str()), h(v))).collect::<Vec<_>>().join(";")
+}
+pub fn qs_rev(q: &Qualifiers) -> String {
+    if q.is_empty() {
+        return "-".into();
+    }
+    q.iter().rev().map(|(k, v)| format!("{}={}", h(k.as_str()), h(v))).collect::<Vec<_>>().join(";")
+}
+/// `O ty|ns|name|ver|quals|sub|canon` (canon = `!` when Display panics)
+pub fn show<T: PurlShape>(p: &GenericPurl<T>) -> String {
+    let canon = catch_unwind(AssertUnwindSafe(|| p.to_string()));
+    format!(
+        "O {}|{}|{}|{}|{}|{}|{}",
+        h(&p.package_type().package_type()),
+        h(p.namespace().unwrap_or("")),
+        h(p.name()),
+        h(p.version().unwrap_or("")),
+        qs(p.qualifiers()),
+        h(p.subpath().unwrap_or("")),
+        match canon {
+            Ok(c) => h(&c),
+            Err(_) => "!".into(),
+        }
+    )
+}
+
+// ------------------------------------------------------------------ kinds of type parameter
+pub trait Kind {
+    type T: PurlShape + Clone + Eq + Ord + Hash + std::fmt::Debug;
+    fn err(e: &<Self::T as PurlShape>::Error) -> String;
+    /// parse with the FromStr-capable sibling of this kind and show
+    fn parse_show(s: &str) -> String;
+    fn parse(s: &str) -> Option<Result<GenericPurl<Self::T>, String>>;
+}
+pub struct KG;
+pub struct KS;
+pub struct KB;
+pub struct KO;
+#[cfg(feature = "pt")]
+pub struct KT;
+impl Kind for KG {
+    type T = String;
+    fn err(e: &ParseError) -> String {
+        perr(e)
+    }
+    fn parse_show(s: &str) -> String {
+        match GenericPurl::<String>::from_str(s) {
+            Ok(p) => show(&p),
+            Err(e) => format!("E {}", perr(&e)),
+        }
+    }
+    fn parse(s: &str) -> Option<Result<GenericPurl<String>, String>> {
+        Some(GenericPurl::<String>::from_str(s).map_err(|e| perr(&e)))
+    }
+}
+impl Kind for KS {
+    type T = Small;
+    fn err(e: &ParseError) -> String {
+        perr(e)
+    }
+    fn parse_show(s: &str) -> String {
+        match GenericPurl::<Small>::from_str(s) {
+            Ok(p) => show(&p),
+            Err(e) => format!("E {}", perr(&e)),
+        }
+    }
+    fn parse(s: &str) -> Option<Result<GenericPurl<Small>, String>> {
+        Some(GenericPurl::<Small>::from_str(s).map_err(|e| perr(&e)))
+    }
+}
+impl Kind for KB {
+    type T = Cow<'static, str>;
+    fn err(e: &ParseError) -> String {
+        perr(e)
+    }
+    fn parse_show(s: &str) -> String {
+        KG::parse_show(s)
+    }
+    fn parse(_: &str) -> Option<Result<GenericPurl<Self::T>, String>> {
+        None
+    }
+}
+impl Kind for KO {
+    type T = Cow<'static, str>;
+    fn err(e: &ParseError) -> String {
+        perr(e)
+    }
+    fn parse_show(s: &str) -> String {
+        KG::parse_show(s)
+    }
+    fn parse(_: &str) -> Option<Result<GenericPurl<Self::T>, String>> {
+        None
+    }
+}
+#[cfg(feature = "pt")]
+impl Kind for KT {
+    type T = PackageType;
+    fn err(e: &PackageError) -> String {
+        pkerr(e)
+    }
+    fn parse_show(s: &str) -> String {
+        match Purl::from_str(s) {
+            Ok(p) => show(&p),
+            Err(e) => format!("E {}", pkerr(&e)),
+        }
+    }
+    fn parse(s: &str) -> Option<Result<Purl, String>> {
+        Some(Purl::from_str(s).map_err(|e| pkerr(&e)))
+    }
+}
+#[cfg(feature = "pt")]
+pub const PTS: [PackageType; 7] = [
+    PackageType::Cargo,
+    PackageType::Gem,
+    PackageType::Golang,
+    PackageType::Maven,
+    PackageType::Npm,
+    PackageType::NuGet,
+    PackageType::PyPI,
+];
+
+/// A PURL-producing case result: either a PURL or a terminal text (`E ..`, `QE`, `CE`).
+pub enum Made<T> {
+    Purl(GenericPurl<T>),
+    Stop(String),
+}
+
+/// `main ## reparse ## rebuild`
+pub fn triple<K: Kind>(m: &Made<K::T>) -> String {
+    match m {
+        Made::Stop(s) => format!("{} ## - ## -", s),
+        Made::Purl(p) => {
+            let main = show(p);
+            let canon = catch_unwind(AssertUnwindSafe(|| p.to_string()));
+            let re = match &canon {
+                Ok(c) => K::parse_show(c),
+                Err(_) => "!".into(),
+            };
+            let rb = match p.clone().into_builder().build() {
+                Ok(p2) => show(&p2),
+                Err(e) => format!("E {}", K::err(&e)),
+            };
+            format!("{} ## {} ## {}", main, re, rb)
+        },
+    }
+}
+
+// ------------------------------------------------------------------ checksum op sequences
+/// csops: `+`-separated; `i.alg.hexbytes` insert, `w.alg.rawtext` insert_raw, `r.alg` remove
+pub fn run_csops(spec: &str) -> Checksum<'static> {
+    let mut c = Checksum::default();
+    if spec == "-" {
+        return c;
+    }
+    for o in spec.split('+') {
+        let f: Vec<&str> = o.split('.').collect();
+        match f[0] {
+            "i" => c.insert(&uh(f[1]), uhb(f[2])),
+            "w" => c.insert_raw(&uh(f[1]), uh(f[2])),
+            "r" => c.remove(&uh(f[1])),
+            _ => panic!("bad csop"),
+        }
+    }
+    c
+}
+pub fn cs_entries(c: &Checksum) -> String {
+    let mut v: Vec<(String, String)> = c.iter().map(|(k, v)| (k.to_string(), v.raw().to_string())).collect();
+    v.sort();
+    if v.is_empty() {
+        return "-".into();
+    }
+    v.iter().map(|(k, v)| format!("{}={}", h(k), h(v))).collect::<Vec<_>>().join(";")
+}
+/// `entries|P` (panic) / `entries|E` / `entries|T:text|entries-after-reparse`
+pub fn cs_show(c: &Checksum) -> String {
+    let c2 = c.clone();
+    let r = catch_unwind(move || Small::try_from(c2));
+    let ents = cs_entries(c);
+    match r {
+        Err(_) => format!("{}|P", ents),
+        Ok(Err(_)) => format!("{}|E", ents),
+        Ok(Ok(t)) => {
+            let back = match Checksum::try_from(t.as_str()) {
+                Ok(c) => cs_entries(&c),
+                Err(_) => "E".into(),
+            };
+            format!("{}|T:{}|{}", ents, h(&t), back)
+        },
+    }
+}
+
+// ------------------------------------------------------------------ builder
+fn build_ops<K: Kind>(
+    mut b: GenericPurlBuilder<K::T>,
+    ops: &str,
+    mkty: &dyn Fn(&str) -> K::T,
+) -> Made<K::T> {
+    if ops != "-" {
+        for o in ops.split(',') {
+            let f: Vec<&str> = o.split(':').collect();
+            b = match f[0] {
+                "N" => b.with_name(uh(f[1])),
+                "S" => b.with_namespace(uh(f[1])),
+                "s" => b.without_namespace(),
+                "V" => b.with_version(uh(f[1])),
+                "v" => b.without_version(),
+                "U" => b.with_subpath(uh(f[1])),
+                "u" => b.without_subpath(),
+                "T" => b.with_package_type(mkty(f[1])),
+                "Q" => match b.with_qualifier(uh(f[1]), uh(f[2])) {
+                    Ok(b) => b,
+                    Err(_) => return Made::Stop("QE".into()),
+                },
+                "q" => b.without_qualifier(uh(f[1])),
+                "z" => b.without_qualifiers(),
+                "C" => match b.try_with_typed_qualifier(Some(run_csops(f[1]))) {
+                    Ok(b) => b,
+                    Err(_) => return Made::Stop("CE".into()),
+                },
+                "c" => b.try_with_typed_qualifier(None::<Checksum>).unwrap(),
+                "R" => {
+                    let u = uh(f[1]);
+                    b.with_typed_qualifier(Some(RepositoryUrl::from(u.as_str())))
+                },
+                "r" => b.with_typed_qualifier(None::<RepositoryUrl>),
+                "D" => {
+                    let _ = b.parts.qualifiers.insert(uh(f[1]), uh(f[2]));
+                    b
+                },
+                "E" => {
+                    b.parts.qualifiers.remove(uh(f[1]));
+                    b
+                },
+                _ => panic!("bad builder op {o}"),
+            };
+        }
+    }
+    match b.build() {
+        Ok(p) => Made::Purl(p),
+        Err(e) => Made::Stop(format!("E {}", K::err(&e))),
+    }
+}
+fn leak(s: String) -> &'static str {
+    Box::leak(s.into_boxed_str())
+}
+pub fn make_g(a: &[&str]) -> Made<String> {
+    match a[0] {
+        "P" | "S" | "X" => {
+            let s = uh(a[a.len() - 1]);
+            match GenericPurl::<String>::from_str(&s) {
+                Ok(p) => Made::Purl(p),
+                Err(e) => Made::Stop(format!("E {}", perr(&e))),
+            }
+        },
+        "B" => build_ops::<KG>(GenericPurlBuilder::new(uh(a[2]), uh(a[3])), a[4], &|t| uh(t)),
+        _ => panic!("bad case"),
+    }
+}
+pub fn make_s(a: &[&str]) -> Made<Small> {
+    match a[0] {
+        "P" | "S" | "X" => {
+            let s = uh(a[a.len() - 1]);
+            match GenericPurl::<Small>::from_str(&s) {
+                Ok(p) => Made::Purl(p),
+                Err(e) => Made::Stop(format!("E {}", perr(&e))),
+            }
+        },
+        "B" => build_ops::<KS>(GenericPurlBuilder::new(Small::from(uh(a[2])), uh(a[3])), a[4], &|t| Small::from(uh(t))),
+        _ => panic!("bad case"),
+    }
+}
+pub fn make_b(a: &[&str]) -> Made<Cow<'static, str>> {
+    build_ops::<KB>(GenericPurlBuilder::new(Cow::Borrowed(leak(uh(a[2]))), uh(a[3])), a[4], &|t| Cow::Borrowed(leak(uh(t))))
+}
+pub fn make_o(a: &[&str]) -> Made<Cow<'static, str>> {
+    build_ops::<KO>(GenericPurlBuilder::new(Cow::Owned(uh(a[2])), uh(a[3])), a[4], &|t| Cow::Owned(uh(t)))
+}
+#[cfg(feature = "pt")]
+pub fn make_t(a: &[&str]) -> Made<PackageType> {
+    match a[0] {
+        "P" | "S" | "X" => {
+            let s = uh(a[a.len() - 1]);
+            match Purl::from_str(&s) {
+                Ok(p) => Made::Purl(p),
+                Err(e) => Made::Stop(format!("E {}", pkerr(&e))),
+            }
+        },
+        "B" => build_ops::<KT>(
+            GenericPurlBuilder::new(PTS[a[2].parse::<usize>().unwrap()], uh(a[3])),
+            a[4],
+            &|t| PTS[t.parse::<usize>().unwrap()],
+        ),
+        _ => panic!("bad case"),
+    }
+}
+
+fn purl_case(a: &[&str]) -> String {
+    match a[1] {
+        "g" => triple::<KG>(&make_g(a)),
+        "s" => triple::<KS>(&make_s(a)),
+        "b" => triple::<KB>(&make_b(a)),
+        "o" => triple::<KO>(&make_o(a)),
+        #[cfg(feature = "pt")]
+        "t" => triple::<KT>(&make_t(a)),
+        _ => "SKIP".into(),
+    }
+}
+
+// ------------------------------------------------------------------ comparison
+fn hash_of<T: Hash>(x: &T) -> u64 {
+    let mut s = DefaultHasher::new();
+    x.hash(&mut s);
+    s.finish()
+}
+fn ord_s(o: std::cmp::Ordering) -> &'static str {
+    match o {
+        std::cmp::Ordering::Less => "lt",
+        std::cmp::Ordering::Equal => "eq",
+        std::cmp::Ordering::Greater => "gt",
+    }
+}
+pub fn cmp_line<T: PurlShape + Eq + Ord + Hash>(x: &Made<T>, y: &Made<T>) -> String {
+    match (x, y) {
+        (Made::Purl(p), Made::Purl(q)) => {
+            format!("{} {}", if p == q { "EQ" } else { "NE" }, ord_s(p.cmp(q)))
+        },
+        _ => "NA".into(),
+    }
+}
+fn cmp_case(a: &[&str]) -> String {
+    let i = a.iter().position(|x| *x == "~").expect("~");
+    let (l, r) = (&a[1..i], &a[i + 1..]);
+    if l[1] != r[1] && !(matches!(l[1], "b" | "o") && matches!(r[1], "b" | "o")) {
+        return "NA".into();
+    }
+    match l[1] {
+        "g" => cmp_line(&make_g(l), &make_g(r)),
+        "s" => cmp_line(&make_s(l), &make_s(r)),
+        "b" | "o" => {
+            let x = if l[1] == "b" { make_b(l) } else { make_o(l) };
+            let y = if r[1] == "b" { make_b(r) } else { make_o(r) };
+            cmp_line(&x, &y)
+        },
+        #[cfg(feature = "pt")]
+        "t" => cmp_line(&make_t(l), &make_t(r)),
+        _ => "SKIP".into(),
+    }
+}
+
+// ------------------------------------------------------------------ Qualifiers op sequences
+fn ov(o: Option<&str>) -> String {
+    match o {
+        Some(v) => format!("v:{}", h(v)),
+        None => "n".into(),
+    }
+}
+pub fn qops(spec: &str) -> (Vec<String>, Qualifiers) {
+    let mut q = Qualifiers::default();
+    let mut outs = vec![];
+    if spec == "-" {
+        return (outs, q);
+    }
+    for o in spec.split(',') {
+        let f: Vec<&str> = o.split(':').collect();
+        let r = catch_unwind(AssertUnwindSafe(|| -> String {
+            match f[0] {
+                "i" => match q.insert(uh(f[1]), uh(f[2])) {
+                    Ok(v) => format!("u:{}", h(v)),
+                    Err(_) => "e".into(),
+                },
+                "r" => ov(q.remove(uh(f[1])).as_deref()),
+                "g" => ov(q.get(uh(f[1]))),
+                "m" => match q.get_mut(uh(f[1])) {
+                    Some(v) => {
+                        let old = v.to_string();
+                        *v = uh(f[2]).into();
+                        format!("v:{}", h(&old))
+                    },
+                    None => "n".into(),
+                },
+                "c" => if q.contains_key(uh(f[1])) { "t" } else { "f" }.into(),
+                "x" => format!("v:{}", h(&q[uh(f[1])])),
+                "X" => {
+                    q[uh(f[1])] = uh(f[2]).into();
+                    "u".into()
+                },
+                "C" => {
+                    q.clear();
+                    "u".into()
+                },
+                "t" => {
+                    q.retain(|_, v| !v.is_empty());
+                    "u".into()
+                },
+                "T" => {
+                    let k = uh(f[1]);
+                    q.retain(|qk, _| *qk != k);
+                    "u".into()
+                },
+                "M" => {
+                    let suf = uh(f[1]);
+                    q.retain_mut(|_, v| {
+                        v.push_str(&suf);
+                        v.len() % 2 == 0
+                    });
+                    "u".into()
+                },
+                "I" => {
+                    let suf = uh(f[1]);
+                    for (_, v) in q.iter_mut() {
+                        v.push_str(&suf);
+                    }
+                    "u".into()
+                },
+                "J" => {
+                    let suf = uh(f[1]);
+                    for (_, v) in (&mut q).into_iter().rev() {
+                        v.push_str(&suf);
+                    }
+                    "u".into()
+                },
+                "eo" => match q.entry(uh(f[1])) {
+                    Err(_) => "e".into(),
+                    Ok(en) => format!("v:{}", h(en.or_insert(uh(f[2])))),
+                },
+                "ew" => match q.entry(uh(f[1])) {
+                    Err(_) => "e".into(),
+                    Ok(en) => {
+                        let mut called = false;
+                        let v = en
+                            .or_insert_with(|| {
+                                called = true;
+                                uh(f[2])
+                            })
+                            .to_string();
+                        format!("v:{}:{}", h(&v), if called { "c" } else { "nc" })
+                    },
+                },
+                "em" => match q.entry(uh(f[1])) {
+                    Err(_) => "e".into(),
+                    Ok(en) => {
+                        let suf = uh(f[2]);
+                        let mut called = false;
+                        let v = en
+                            .and_modify(|v| {
+                                called = true;
+                                v.push_str(&suf)
+                            })
+                            .or_insert(uh(f[3]))
+                            .to_string();
+                        format!("v:{}:{}", h(&v), if called { "c" } else { "nc" })
+                    },
+                },
+                "ei" => match q.entry(uh(f[1])) {
+                    Err(_) => "e".into(),
+                    Ok(Entry::Occupied(mut o)) => {
+                        let g = o.get().to_string();
+                        let old = o.insert(uh(f[2]));
+                        format!("o:{}:{}", h(&g), h(&old))
+                    },
+                    Ok(Entry::Vacant(v)) => format!("vac:{}", h(v.insert(uh(f[2])))),
+                },
+                "er" => match q.entry(uh(f[1])) {
+                    Err(_) => "e".into(),
+                    Ok(Entry::Occupied(o)) => format!("o:{}", h(&o.remove())),
+                    Ok(Entry::Vacant(_)) => "vac".into(),
+                },
+                "eR" => match q.entry(uh(f[1])) {
+                    Err(_) => "e".into(),
+                    Ok(Entry::Occupied(o)) => {
+                        let (k, v) = o.remove_entry();
+                        format!("o:{}={}", h(&k), h(&v))
+                    },
+                    Ok(Entry::Vacant(_)) => "vac".into(),
+                },
+                "eG" => match q.entry(uh(f[1])) {
+                    Err(_) => "e".into(),
+                    Ok(Entry::Occupied(mut o)) => {
+                        o.get_mut().push_str(&uh(f[2]));
+                        format!("o:{}", h(o.into_mut()))
+                    },
+                    Ok(Entry::Vacant(_)) => "vac".into(),
+                },
+                "l" => format!("l:{}:{}", q.len(), if q.is_empty() { "t" } else { "f" }),
+                "tr" => {
+                    let u = uh(f[1]);
+                    q.insert_typed(RepositoryUrl::from(u.as_str()));
+                    "u".into()
+                },
+                "tg" => ov(q.get_typed::<RepositoryUrl>().map(|r| {
+                    let s: &str = r.into();
+                    s
+                })),
+                "tc" => if q.contains_typed::<RepositoryUrl>() { "t" } else { "f" }.into(),
+                "td" => {
+                    q.remove_typed::<RepositoryUrl>();
+                    "u".into()
+                },
+                "tC" => match q.try_insert_typed(run_csops(f[1])) {
+                    Ok(()) => "u".into(),
+                    Err(_) => "e".into(),
+                },
+                "tG" => match q.try_get_typed::<Checksum>() {
+                    Err(_) => "e".into(),
+                    Ok(None) => "n".into(),
+                    Ok(Some(c)) => format!("k:{}", cs_entries(&c)),
+                },
+                "ke" => {
+                    // QualifierKey comparisons against an arbitrary string, for every stored key
+                    let s = uh(f[1]);
+                    q.iter()
+                        .map(|(k, _)| {
+                            format!(
+                                "{}{}",
+                                if *k == s { "E" } else { "N" },
+                                match k.partial_cmp(&s) {
+                                    Some(o) => ord_s(o),
+                                    None => "none",
+                                }
+                            )
+                        })
+                        .collect::<Vec<_>>()
+                        .join("/")
+                        + "."
+                },
+                _ => panic!("bad qop {o}"),
+            }
+        }));
+        outs.push(r.unwrap_or_else(|_| "PANIC".into()));
+    }
+    (outs, q)
+}
+fn q_case(spec: &str) -> String {
+    let (outs, q) = qops(spec);
+    format!("{}|{}|{}|{}", if outs.is_empty() { "-".into() } else { outs.join(",") }, qs(&q), qs_rev(&q), q.len())
+}
+pub fn pairs(s: &str) -> Vec<(String, String)> {
+    if s == "-" {
+        return vec![];
+    }
+    s.split(',')
+        .map(|kv| {
+            let (k, v) = kv.split_once('=').unwrap();
+            (uh(k), uh(v))
+        })
+        .collect()
+}
+fn f_case(spec: &str) -> String {
+    match Qualifiers::try_from_iter(pairs(spec)) {
+        Ok(q) => format!("{}|{}", qs(&q), q.len()),
+        Err(e) => format!("E {}", perr(&e)),
+    }
+}
+
+// ------------------------------------------------------------------ dispatcher
+pub fn run(line: &str) -> String {
+    let a: Vec<&str> = line.split(' ').collect();
+    match a[0] {
+        "P" | "S" | "X" | "B" => purl_case(&a),
+        "K" => cmp_case(&a),
+        "Q" => q_case(a[1]),
+        "F" => f_case(a[1]),
+        "C" => cs_show(&run_csops(a[1])),
+        "c" => {
+            let t = uh(a[1]);
+            match Checksum::try_from(t.as_str()) {
+                Err(_) => "E".into(),
+                Ok(c) => {
+                    // typed decode of every entry (hex crate) in sorted order
+                    let mut ks: Vec<String> = c.algorithms().map(|s| s.to_string()).collect();
+                    ks.sort();
+                    let dec = ks
+                        .iter()
+                        .map(|k| match c.get::<Vec<u8>>(k) {
+                            Ok(Some(b)) => hb(&b),
+                            Ok(None) => "none".into(),
+                            Err(_) => "x".into(),
+                        })
+                        .collect::<Vec<_>>()
+                        .join(";");
+                    format!("{}|{}", cs_show(&c), if dec.is_empty() { "-".into() } else { dec })
+                },
+            }
+        },
+        #[cfg(feature = "pt")]
+        "T" => match PackageType::from_str(&uh(a[1])) {
+            Ok(t) => h(t.name()),
+            Err(_) => "none".into(),
+        },
+        #[cfg(feature = "pt")]
+        "N" => {
+            let t = PTS[a[1].parse::<usize>().unwrap()];
+            let b = Purl::builder_with_combined_name(t, uh(a[2]));
+            let ns = b.parts.namespace.to_string();
+            let nm = b.parts.name.to_string();
+            match b.build() {
+                Ok(p) => {
+                    let cn = p.combined_name().to_string();
+                    let b2 = Purl::builder_with_combined_name(t, &cn);
+                    format!(
+                        "{}|{}|{}|{}|{}|{}|{}",
+                        h(&ns),
+                        h(&nm),
+                        h(p.namespace().unwrap_or("")),
+                        h(p.name()),
+                        h(&cn),
+                        h(&b2.parts.namespace),
+                        h(&b2.parts.name)
+                    )
+                },
+                Err(e) => format!("{}|{}|E {}", h(&ns), h(&nm), pkerr(&e)),
+            }
+        },
+        "H" => shapes::run(&a),
+        #[cfg(feature = "serde")]
+        "J" => oracle::serde_case(&a),
+        _ => "SKIP".into(),
+    }
+}
+
+thread_local! { pub static SCRATCH: RefCell<Vec<String>> = RefCell::new(vec![]); }
+
+fn main() {
+    std::panic::set_hook(Box::new(|_| {}));
+    let args: Vec<String> = std::env::args().collect();
+    let mode = args.get(1).map(|s| s.as_str()).unwrap_or("run");
+    let stdin = std::io::stdin();
+    let out = std::io::stdout();
+    let mut out = std::io::BufWriter::with_capacity(1 << 20, out.lock());
+    match mode {
+        "run" => {
+            for line in stdin.lock().lines() {
+                let line = line.unwrap();
+                let r = catch_unwind(AssertUnwindSafe(|| run(&line)));
+                writeln!(out, "{}", r.unwrap_or_else(|_| "PANIC".into())).unwrap();
+            }
+        },
+        "oracle" => {
+            for line in stdin.lock().lines() {
+                let line = line.unwrap();
+                let r = catch_unwind(AssertUnwindSafe(|| oracle::check(&line)));
+                writeln!(out, "{}", r.unwrap_or_else(|_| "FAIL C06 panic in oracle path".into())).unwrap();
+            }
+        },
+        "probe" => {
+            // exhaustive probe of the constants the translator reads from the source (finite domains)
+            let b = |ns: &str, name: &str, ver: &str, k: &str, v: &str, sub: &str| -> String {
+                let mut bb = GenericPurlBuilder::new("t".to_string(), name).with_namespace(ns).with_version(ver).with_subpath(sub);
+                if !k.is_empty() {
+                    bb = bb.with_qualifier(k, v).unwrap();
+                }
+                bb.build().unwrap().to_string()
+            };
+            let mut sets: Vec<Vec<u8>> = vec![vec![]; 5];
+            for c in 0u8..128 {
+                let ch = (c as char).to_string();
+                let x = format!("x{}x", ch);
+                let outs = [
+                    b(&x, "n", "", "", "", ""),
+                    b("", &x, "", "", "", ""),
+                    b("", "n", &x, "", "", ""),
+                    b("", "n", "", "k", &x, ""),
+                    b("", "n", "", "", "", &x),
+                ];
+                for (i, o) in outs.iter().enumerate() {
+                    if o.contains(&format!("x%{:02X}x", c)) {
+                        sets[i].push(c);
+                    } else if !o.contains(&x) {
+                        panic!("probe: byte {} in position {} printed as {}", c, i, o);
+                    }
+                }
+            }
+            for (n, st) in ["ns", "name", "ver", "qval", "sub"].iter().zip(sets.iter()) {
+                writeln!(out, "set {} {}", n, st.iter().map(|c| c.to_string()).collect::<Vec<_>>().join(",")).unwrap();
+            }
+            let mut tchars = vec![];
+            let mut kchars = vec![];
+            for c in 0u8..128 {
+                let ch = (c as char).to_string();
+                if GenericPurl::<String>::new(format!("a{}", ch), "n").is_ok() {
+                    tchars.push(c);
+                }
+                if Qualifiers::default().insert(format!("a{}", ch), "v").is_ok() {
+                    kchars.push(c);
+                }
+            }
+            let f = |v: &Vec<u8>| v.iter().map(|c| c.to_string()).collect::<Vec<_>>().join(",");
+            writeln!(out, "typechars {}", f(&tchars)).unwrap();
+            writeln!(out, "keychars {}", f(&kchars)).unwrap();
+            #[cfg(feature = "pt")]
+            for t in PTS {
+                writeln!(out, "ptype {:?} {}", t, t.name()).unwrap();
+            }
+        },
+        "features" => {
+            let mut f = vec![];
+            if cfg!(feature = "pt") {
+                f.push("pt")
+            }
+            if cfg!(feature = "ss") {
+                f.push("ss")
+            }
+            if cfg!(feature = "serde") {
+                f.push("serde")
+            }
+            writeln!(out, "{}", f.join(",")).unwrap();
+        },
+        _ => panic!("usage: vharness run|oracle|probe|features"),
+    }
+}
